@@ -1,8 +1,10 @@
 package props
 
 import (
+	"bytes"
 	"crypto/rand"
 	"fmt"
+	"math/big"
 	"sync"
 	"testing"
 
@@ -52,6 +54,8 @@ func checkSharedKeys(c sharedKeysCase) error {
 	var signer cose.Signer
 	var verifier cose.Verifier
 	var err error
+	var sharedKey *cose.Key // the parsed COSE_Key object itself is shared, too (a key cache)
+	var sharedKeyEnc []byte
 	if c.ViaKey {
 		// Go key -> COSE_Key -> bytes -> COSE_Key -> signer / verifier
 		k, e := cose.NewKeyFromPrivate(c.Key.Private())
@@ -71,6 +75,48 @@ func checkSharedKeys(c sharedKeysCase) error {
 		}
 		if verifier, err = back.Verifier(); err != nil {
 			return finding("key", "Key.Verifier: %v", err)
+		}
+		// what travels is often the public key, and peers may trim leading zero octets: the shared object is the
+		// parsed public COSE_Key with its coordinates as big.Int.Bytes() leaves them
+		if pk, e := cose.NewKeyFromPublic(c.Key.Public()); e == nil {
+			if penc, e := pk.MarshalCBOR(); e == nil {
+				trimmed := c14TrimCoordinates(penc)
+				var parsed cose.Key
+				if e := parsed.UnmarshalCBOR(trimmed); e == nil {
+					sharedKey = &parsed
+					sharedKeyEnc, _ = parsed.MarshalCBOR()
+					if !bytes.Equal(trimmed, penc) {
+						stats.Class("shared/parsed-key-with-a-short-coordinate")
+					}
+					// the first use of a freshly parsed key object comes from all workers at once, many times over
+					for r := 0; r < 60; r++ {
+						var fresh cose.Key
+						if fresh.UnmarshalCBOR(trimmed) != nil {
+							break
+						}
+						outs := make([][]byte, c.Workers)
+						var wg sync.WaitGroup
+						start := make(chan struct{})
+						for w := 0; w < c.Workers; w++ {
+							wg.Add(1)
+							go func(w int) {
+								defer wg.Done()
+								defer func() { recover() }()
+								<-start
+								outs[w], _ = fresh.MarshalCBOR()
+								fresh.Verifier()
+							}(w)
+						}
+						close(start)
+						wg.Wait()
+						for w, o := range outs {
+							if !bytes.Equal(o, sharedKeyEnc) {
+								return finding("shared/key-encoding-differs", "round %d, worker %d: a freshly parsed COSE_Key encoded by %d goroutines at once gives %x, sequentially %x", r, w, c.Workers, o, sharedKeyEnc)
+							}
+						}
+					}
+				}
+			}
 		}
 		stats.Class("shared/keys-from-COSE_Key")
 	} else {
@@ -140,6 +186,16 @@ func checkSharedKeys(c sharedKeysCase) error {
 			}()
 			<-start
 			for round := 0; round < c.Rounds; round++ {
+				if sharedKey != nil {
+					if b, err := sharedKey.MarshalCBOR(); err != nil || !bytes.Equal(b, sharedKeyEnc) {
+						report(finding("shared/key-encoding-differs", "worker %d round %d: the shared COSE_Key encodes differently (err=%v) while other goroutines encode / use it\n got=%x\nwant=%x", w, round, err, b, sharedKeyEnc))
+						return
+					}
+					if _, err := sharedKey.Verifier(); err != nil {
+						report(finding("shared/key-verifier-fails", "worker %d round %d: Key.Verifier on the shared COSE_Key fails: %v", w, round, err))
+						return
+					}
+				}
 				for i, it := range work[w] {
 					if err := it.good.Verify(ext, verifier); err != nil {
 						report(finding("shared/valid-rejected", "worker %d round %d: validly signed message %d (payload %d bytes, %s) is rejected while other goroutines use the same verifier object on their own messages: %v", w, round, i, len(it.good.Payload), refcose.AlgName(c.Key.Alg), err))
@@ -201,6 +257,26 @@ func checkSharedKeys(c sharedKeysCase) error {
 	return nil
 }
 
+// c14TrimCoordinates re-encodes an EC2 COSE_Key with the leading zero octets of x and y removed.
+func c14TrimCoordinates(enc []byte) []byte {
+	root, err := rc.MParse(enc, false)
+	if err != nil || root.Major != 5 {
+		return enc
+	}
+	if len(root.Keys) < 1 || root.Vals[0].Major != 0 || root.Vals[0].Arg != 2 {
+		return enc // not EC2
+	}
+	for i, k := range root.Keys {
+		if k.Major == 1 && (k.Arg == 1 || k.Arg == 2) && root.Vals[i].Major == 2 { // labels -2, -3
+			b := bytes.TrimLeft(root.Vals[i].Bytes, "\x00")
+			if len(b) > 0 {
+				root.Vals[i].Bytes, root.Vals[i].W = b, 0
+			}
+		}
+	}
+	return root.Enc()
+}
+
 func init() { register("sharedkeys", checkSharedKeys) }
 
 func runSharedKeys(t *testing.T, property string, viaKey bool) {
@@ -210,6 +286,12 @@ func runSharedKeys(t *testing.T, property string, viaKey bool) {
 		c := sharedKeysCase{Key: gen.KeyMat(rt, alg), ViaKey: viaKey}
 		if viaKey && c.Key.Family() == "rsa" {
 			c.Key = gen.KeyMat(rt, rapid.SampledFrom([]int64{refcose.AlgES256, refcose.AlgES384, refcose.AlgES512, refcose.AlgEdDSA}).Draw(rt, "key-alg"))
+		}
+		if viaKey && rapid.Bool().Draw(rt, "short-coordinate-key") {
+			// a key whose public point has a coordinate with leading zero octets (tabulated scalars)
+			e := zeroCoordScalars[rapid.IntRange(0, len(zeroCoordScalars)-1).Draw(rt, "scalar")]
+			alg := map[int]int64{256: refcose.AlgES256, 384: refcose.AlgES384, 521: refcose.AlgES512}[e.Curve]
+			c.Key = refcose.KeyMat{Alg: alg, D: big.NewInt(e.D - 1).Bytes()}
 		}
 		c.Workers = rapid.SampledFrom([]int{2, 4, 8, 16}).Draw(rt, "workers")
 		c.Rounds = rapid.IntRange(1, 4).Draw(rt, "rounds")
